@@ -99,10 +99,39 @@ pub fn history_pairs<T: Sync>(name: &str, pool: &[T], op: &(dyn Fn(&T) -> String
             let _ = crate::engine::guarded(|| op(&pool[w]));
             let got = crate::engine::guarded(|| op(&pool[v])).unwrap_or_else(|p| format!("panic: {p}"));
             if got != *want {
+                // which history is needed? this worker has executed w, v0, w, v1, ..., w, v: find the
+                // shortest suffix of that sequence that gives the same wrong result on a fresh thread
+                let executed: Vec<usize> = (0..=v).flat_map(|k| [w, k]).collect();
+                let on_fresh_thread = |seq: &[usize]| -> String {
+                    std::thread::scope(|s| {
+                        s.spawn(|| {
+                            let mut last = String::new();
+                            for &i in seq {
+                                last = crate::engine::guarded(|| op(&pool[i])).unwrap_or_else(|p| format!("panic: {p}"));
+                            }
+                            last
+                        })
+                        .join()
+                        .unwrap()
+                    })
+                };
+                let mut seq: Vec<usize> = executed.clone();
+                for len in 2..=executed.len().min(14) {
+                    let cand = &executed[executed.len() - len..];
+                    if on_fresh_thread(cand) != *want {
+                        seq = cand.to_vec();
+                        break;
+                    }
+                }
+                let case = if seq.len() == 2 {
+                    json!({"history_pair": name, "before": show(&pool[seq[0]]), "then": show(&pool[seq[1]])})
+                } else {
+                    json!({"history_pair": name, "sequence": seq.iter().map(|&i| show(&pool[i])).collect::<Vec<_>>()})
+                };
                 local.fail(
                     &format!("history-changes-output:{name}"),
-                    json!({"history_pair": name, "before": show(&pool[w]), "then": show(&pool[v])}),
-                    format!("{name}: after the same operation on {} the result for {} is {}, alone it is {}", show(&pool[w]), show(&pool[v]), got.chars().take(300).collect::<String>(), want.chars().take(300).collect::<String>()),
+                    case,
+                    format!("{name}: after the same operation on {} the result for {} is {}, alone it is {}", seq[..seq.len() - 1].iter().map(|&i| show(&pool[i]).to_string()).collect::<Vec<_>>().join(", then "), show(&pool[v]), got.chars().take(300).collect::<String>(), want.chars().take(300).collect::<String>()),
                 );
             }
         }
@@ -245,4 +274,32 @@ pub fn zinc_text_all_writers(lv: &libhaystack::val::Value) -> Result<String, (St
         }
     }
     Ok(text)
+}
+
+
+/// replay of a `history_pair` case (a pair, or a longer `sequence`): the last item's result after
+/// the others, on a fresh thread, against its result alone
+pub fn replay_history_pair<T: Sync>(case: &J, parse: &dyn Fn(&J) -> T, op: &(dyn Fn(&T) -> String + Sync), name: &str) -> Verdict {
+    let items: Vec<T> = match case["sequence"].as_array() {
+        Some(a) => a.iter().map(parse).collect(),
+        None => vec![parse(&case["before"]), parse(&case["then"])],
+    };
+    let last = items.last().expect("non-empty");
+    let alone = std::thread::scope(|s| s.spawn(|| crate::engine::guarded(|| op(last)).unwrap_or_else(|p| format!("panic: {p}"))).join().unwrap());
+    let after = std::thread::scope(|s| {
+        s.spawn(|| {
+            let mut r = String::new();
+            for x in &items {
+                r = crate::engine::guarded(|| op(x)).unwrap_or_else(|p| format!("panic: {p}"));
+            }
+            r
+        })
+        .join()
+        .unwrap()
+    });
+    if alone == after {
+        Ok(())
+    } else {
+        Err((format!("history-changes-output:{name}"), format!("alone {}, after {}", alone.chars().take(200).collect::<String>(), after.chars().take(200).collect::<String>())))
+    }
 }
